@@ -26,7 +26,8 @@ def run(tier, replay=None):
                        "states": "every byte offset 0..len of the image and the null cursor, for every view reachable by random access (message, every entry at every depth)",
                        "labels": "every non-constant member x {plain, init, dont_move, init_dont_move, skip} getters; scalar fields also x 4 setters (writing the value already there); cursor<byte> and cursor<const byte>",
                        "traversals": "complete in-order traversals; wrapper per member from every cyclic choice string over {plain,init,skip,dont_move+plain,init_dont_move+plain} of length <= %d; group iteration by cursor_range / cursor_begin..end / cursor_subrange(0) / cursor_subrange(0,n) / split subranges" % maxlen,
-                       "cells": [cxx.cell_name(c) for c in cells], "traversal_cells": [cxx.cell_name(c) for c in tcells]})
+                       "cells": [cxx.cell_name(c) for c in cells], "traversal_cells": [cxx.cell_name(c) for c in tcells],
+                       "release_configuration": "the traversals again with SBEPP_DISABLE_ASSERTS on %d cell(s)" % (1 if tier == "quick" else 2)})
     builts = pipeline.prepare("c04-" + tier, schemas, cells, srcgen=("vlib.gen.cursorx", "driver_source"))
     total = pipeline.run(builts, cells, "vlib.checks._cat", "plan_c04",
                          {"cap": cap, "ok_fields": ("transitions", "legal", "illegal", "states")},
@@ -38,6 +39,15 @@ def run(tier, replay=None):
                           deadline_s=600 if tier == "quick" else 3600)
     shapes_n = total.counters.get("shapes", 0)
     _cat.report_pipeline(rep, tb, ttotal, "traverse")
+    # part 3: the same traversals in the release configuration (SBEPP_DISABLE_ASSERTS: views carry no end pointer and the
+    # iterators / cursor ranges compile their `#else` branches) -- the equivalence and the cursor positions do not depend
+    # on checks being compiled in
+    rcells = tcells[:1] if tier == "quick" else tcells[:2]
+    rb = pipeline.prepare("c04tr-" + tier, schemas, rcells, srcgen=("vlib.gen.traverse", "driver_source"), defines=("SBEPP_DISABLE_ASSERTS",))
+    rtotal = pipeline.run(rb, rcells, "vlib.checks._cat", "plan_traverse", {"cap": cap, "maxlen": maxlen},
+                          deadline_s=600 if tier == "quick" else 3600)
+    _cat.report_pipeline(rep, rb, rtotal, "traverse-release")
+    rep.set("release_traversals", rtotal.cases)
     rep.set("shapes", shapes_n)
     rep.set("traversals", ttotal.cases)
     rep.set("traversals_ok", ttotal.ok)
